@@ -28,12 +28,17 @@ HERE = Path(__file__).resolve().parent
 # ---------------------------------------------------------------------------
 # vocabulary
 
-ATOMS = ["int", "str", "bool", "None", "A", "B", "C", "list[int]", "float", "object", "Any"]
+ATOMS = ["int", "str", "bool", "None", "A", "B", "C", "list[int]", "float", "object", "Any", "Ellipsis", "LitA"]
+# "Ellipsis" / "LitA": the literal `...` / `"a"` passed explicitly (KnownValue(Ellipsis) / KnownValue("a"))
+LITERAL_SRC = {"Ellipsis": "...", "LitA": '"a"'}
+DEFAULT_SRC = {True: "...", "dots": "...", "none": "None", "lita": '"a"'}
+DEFAULT_ATOM = {True: "Ellipsis", "dots": "Ellipsis", "none": "None", "lita": "LitA"}
 ARG_ATOMS = ["int", "str", "bool", "None", "A", "B", "C", "list[int]", "float"]
 RETS = ["R1", "R2", "R3", "R4"]
 CLEAN, VIA_ANY, FAIL = "Clean", "ViaAny", "Fail"
 
-PRELUDE = """from typing import overload, Any, Union, Optional
+PRELUDE = """from types import EllipsisType
+from typing import overload, Any, Union, Optional
 from typing_extensions import reveal_type
 class A: pass
 class B(A): pass
@@ -56,12 +61,15 @@ def is_union(t):
     return not isinstance(t, str)
 
 
+TYPE_SRC = {"Ellipsis": "EllipsisType", "LitA": "str"}
+
+
 def render_type(t):
     if t is None:
         return None
     if isinstance(t, str):
-        return t
-    return "Union[" + ", ".join(t[1]) + "]"
+        return TYPE_SRC.get(t, t)
+    return "Union[" + ", ".join(TYPE_SRC.get(m, m) for m in t[1]) + "]"
 
 
 # ---------------------------------------------------------------------------
@@ -92,7 +100,7 @@ def render_params(params):
         if p.get("ann") is not None:
             s += ": " + render_type(p["ann"])
         if p.get("default"):
-            s += " = ..."
+            s += " = " + DEFAULT_SRC[p["default"]]
         out.append(s)
         if k == "po":
             seen_po = True
@@ -105,7 +113,8 @@ def render_overloads(fname, overloads):
     lines = []
     for ov in overloads:
         lines.append("@overload")
-        lines.append(f"def {fname}({render_params(ov['params'])}) -> {ov['ret']}: ...")
+        ign = "  # static analysis: ignore[incompatible_default]" if any(p.get("default") in ("none", "lita") for p in ov["params"]) else ""
+        lines.append(f"def {fname}({render_params(ov['params'])}) -> {ov['ret']}: ...{ign}")
     lines.append(f"def {fname}(*args, **kwargs): raise NotImplementedError")
     return lines
 
@@ -115,9 +124,15 @@ def render_call(fname, tname, call):
     ps = []
     args = []
     for i, t in enumerate(call["pos"]):
+        if isinstance(t, str) and t in LITERAL_SRC:
+            args.append(LITERAL_SRC[t])  # the literal itself is passed
+            continue
         ps.append(f"a{i}: {render_type(t)}")
         args.append(f"a{i}")
     for i, (k, t) in enumerate(call["kw"]):
+        if isinstance(t, str) and t in LITERAL_SRC:
+            args.append(f"{k}={LITERAL_SRC[t]}")
+            continue
         ps.append(f"k{i}: {render_type(t)}")
         args.append(f"{k}=k{i}")
     if call.get("star") is not None:
@@ -189,7 +204,8 @@ def impl_end_to_end(cases):
                 diag.append(code)
         out[key] = {"revealed": revealed, "diag": sorted(diag)}
     call_lines = set(where.values())
-    other = sorted({(int(e["lineno"]), e["code"].name) for e in errors if int(e["lineno"]) not in call_lines})
+    other = sorted({(int(e["lineno"]), e["code"].name) for e in errors
+                    if int(e["lineno"]) not in call_lines and e["code"].name != "unused_ignore"})
     return out, other, src
 
 
@@ -231,6 +247,10 @@ def impl_primitives(cases):
                 return KnownValue(None)
             if a == "Any":
                 return AnyValue(AnySource.explicit)
+            if a == "Ellipsis":
+                return KnownValue(Ellipsis)
+            if a == "LitA":
+                return KnownValue("a")
             if a == "list[int]":
                 return GenericValue(list, [TypedValue(int)])
             if a in ("A", "B", "C"):
@@ -358,7 +378,7 @@ def worker(payload):
 # ---------------------------------------------------------------------------
 # independent oracle: CPython's binder + subtype table + the docstring's resolver
 
-PROMOTES = {("bool", "int"), ("B", "A"), ("int", "float"), ("bool", "float")}
+PROMOTES = {("bool", "int"), ("B", "A"), ("int", "float"), ("bool", "float"), ("LitA", "str"), ("Ellipsis", "EllipsisType")}
 
 
 def sub_atom(m, t):
@@ -561,8 +581,8 @@ def gen_type(rng, atoms, p_union):
     return rng.choice(atoms)
 
 
-PARAM_ATOMS = ["int", "str", "bool", "None", "A", "B", "C", "list[int]", "float", "object", "Any"]
-PARAM_WEIGHTS = [6, 5, 3, 3, 4, 3, 2, 2, 2, 2, 1]
+PARAM_ATOMS = ["int", "str", "bool", "None", "A", "B", "C", "list[int]", "float", "object", "Any", "EllipsisType"]
+PARAM_WEIGHTS = [6, 5, 3, 3, 4, 3, 2, 2, 2, 2, 1, 1]
 NAMES = ["x", "y", "z"]
 
 
@@ -592,11 +612,11 @@ def gen_overload(rng, arity, family, i):
         # trailing defaults on the last non-keyword-only parameter(s)
         for p in reversed(params):
             if p["kind"] in ("pk", "po"):
-                p["default"] = True
+                p["default"] = rng.choice(["dots", "dots", "dots", "none", "none", "lita"])
                 break
     for p in params:
         if p["kind"] == "ko" and rng.random() < 0.3:
-            p["default"] = True
+            p["default"] = rng.choice(["dots", "dots", "none", "lita"])
     if family == "variadic" or (family == "arity" and rng.random() < 0.15):
         r = rng.random()
         if r < 0.6:
@@ -623,7 +643,8 @@ def gen_call(rng, overloads, mode):
     # argument types by mode; biased so that calls are often accepted: the type
     # for argument j is drawn from what parameter j of the target overload
     # (for unions: of several overloads) accepts
-    SUBS = {"int": ["int", "bool"], "A": ["A", "B"], "float": ["float", "int"], "object": ARG_ATOMS, "Any": ARG_ATOMS}
+    SUBS = {"int": ["int", "bool"], "A": ["A", "B"], "float": ["float", "int"], "object": ARG_ATOMS, "Any": ARG_ATOMS,
+            "EllipsisType": ["Ellipsis"], "str": ["str", "str", "LitA"]}
 
     def accepted_by(o, j):
         ps = [p for p in o["params"] if p["kind"] in ("po", "pk", "ko")]
@@ -639,11 +660,27 @@ def gen_call(rng, overloads, mode):
         out = []
         for m in members(ann):
             out += SUBS.get(m, [m])
-        return [m for m in out if m in ARG_ATOMS]
+        return [m for m in out if m in ARG_ATOMS or m in LITERAL_SRC]
 
-    def plain(j=None, o=None):
+    def default_literals(j):
+        """the literal defaults that parameter j has in some overload, as argument atoms"""
+        out = []
+        for o in overloads:
+            ps = [p for p in o["params"] if p["kind"] in ("po", "pk", "ko")]
+            if j < len(ps) and ps[j].get("default"):
+                out.append(DEFAULT_ATOM[ps[j]["default"]])
+        return out
+
+    def plain(j=None, o=None, literals=True):
+        if literals and j is not None and rng.random() < 0.3:
+            # pass exactly the literal that is some overload's default for this parameter
+            lits = default_literals(j)
+            if lits:
+                return rng.choice(lits)
         if j is not None and rng.random() < 0.8:
             pool = accepted_by(o or ov, j)
+            if not literals:
+                pool = [m for m in pool if m not in LITERAL_SRC]
             if pool:
                 return rng.choice(pool)
         return rng.choice(ARG_ATOMS)
@@ -654,7 +691,7 @@ def gen_call(rng, overloads, mode):
         tries = 0
         while len(ms) < k and tries < 20:
             tries += 1
-            m = plain(j, rng.choice(overloads))
+            m = plain(j, rng.choice(overloads), literals=False)
             if m not in ms:
                 ms.append(m)
         while len(ms) < 2:
